@@ -1255,7 +1255,7 @@ func Run(ctx *common.Ctx) {
 		"Definition sends_outside_guard := Eval vm_compute in outside_count cases.\nPrint sends_outside_guard.\n" +
 		"Definition make_instances := Eval vm_compute in make_count cases.\nPrint make_instances.\n" +
 		"Definition make_instances_inside_guard := Eval vm_compute in make_guard_count cases.\nPrint make_instances_inside_guard.\n"
-	ctx.WriteShards("cases", header, "case", footer, terms, descs, 16)
+	ctx.WriteShards("cases", header, "case", footer, terms, descs, map[bool]int{true: 64, false: 16}[ctx.Thorough()])
 	ctx.ReplayKnownLisp()
 	replayBound(ctx)
 }
